@@ -2032,7 +2032,7 @@ def judge_c07(case, lab):
     for i, h in enumerate(hist):
         if h["a"] == "Register":
             n0 = len(g.log)
-            g.obj[h["d"]].register(dec(h["alias"]), g.obj[h["impl"]])
+            build.do_register(g.obj[h["d"]], dec(h["alias"]), g.obj[h["impl"]], h["impl"])
             if len(g.log) != n0:
                 res.bad("register-runs", "register() ran %s" % [(e[0], e[1]) for e in g.log[n0:]][:4])
             continue
